@@ -2,6 +2,7 @@ import Pk.Tsvd
 import PkLA.Truncation
 import PkLA.EckartYoung
 import PkLA.SvdExists
+import PkLA.SvUnique
 import Mathlib.Algebra.Order.Field.Rat
 /-! # C14 — the retained rank obeys the truncation rule
 
@@ -203,6 +204,18 @@ theorem C14_svd_exists {m n : Type} [Fintype m] [Fintype n] [DecidableEq m] [Dec
     ∃ (r : Type) (_ : Fintype r) (_ : DecidableEq r) (Q : Matrix m r ℝ) (Z : Matrix n r ℝ) (s : r → ℝ),
       Qᵀ * Q = 1 ∧ Zᵀ * Z = 1 ∧ (∀ i, 0 < s i) ∧ X = Q * diagonal s * Zᵀ ∧ Fintype.card r = X.rank :=
   exists_svd_rank X
+
+/-- … and its singular values are determined by the matrix: two compact SVDs of the same matrix have the same singular
+values with multiplicities (they are the square roots of the non-zero roots of the characteristic polynomial of
+`XᵀX`), so "the leading triplets", the retained rank of a cutoff rule and the nuclear norm `Σσ_i` are well defined -/
+theorem C14_singular_values_unique {m n r r' : Type} [Fintype m] [Fintype n] [Fintype r] [Fintype r']
+    [DecidableEq m] [DecidableEq n] [DecidableEq r] [DecidableEq r']
+    (X : Matrix m n ℝ) (Q : Matrix m r ℝ) (Z : Matrix n r ℝ) (s : r → ℝ)
+    (Q' : Matrix m r' ℝ) (Z' : Matrix n r' ℝ) (s' : r' → ℝ)
+    (hQ : Qᵀ * Q = 1) (hZ : Zᵀ * Z = 1) (hs : ∀ i, 0 < s i) (hX : X = Q * diagonal s * Zᵀ)
+    (hQ' : Q'ᵀ * Q' = 1) (hZ' : Z'ᵀ * Z' = 1) (hs' : ∀ j, 0 < s' j) (hX' : X = Q' * diagonal s' * Z'ᵀ) :
+    Multiset.map s Finset.univ.val = Multiset.map s' Finset.univ.val :=
+  singular_values_unique X Q Z s Q' Z' s' hQ hZ hs hX hQ' hZ' hs' hX'
 
 end factors
 
